@@ -18,7 +18,9 @@ RULE = ("Directories are drawn by Hypothesis (plain, with link files / .cap / ab
         "refers to this enumeration; the directories themselves are sampled). Concurrent readers: the states a reader "
         "can observe while a writer runs are recorded through a write gate and each is replayed as a reader request; "
         "second actor: for prefixes 0, 1, size/2, size-1, before each of the reader's file-system calls that touch the "
-        "cache file another request removes or completes the file (every call index x both actions). "
+        "cache file another request removes or completes the file (every call index x both actions); rewrite race: "
+        "with an expired complete cache in place and a same-length rename in the directory, every state of the file "
+        "observed while the writer rewrites it is replayed as a reader request. "
         "Non-trivial: prefix strictly between 0 and size; distinct = (directory hash, file, prefix length).")
 ASSUMPTIONS = [
     "a killed writer, a full disk and a reader racing a writer all leave a prefix of the bytes the writer would have "
@@ -169,6 +171,8 @@ def check_case(case, ctx):
                     f.write(orig)
         if k == 1:
             fails += _second_actor(cfg, root, ref, forms, ctx, d)
+        if k == 2:
+            fails += _rewrite_race(cfg, ref_cfg, root, forms, ctx, d)
         ctx.label("deco:" + d["deco"], "cachefiles:%d" % len(caches))
         if k == 0:
             ctx.sample({"dir": d, "cache_files": caches}, cls=d["deco"])
@@ -269,12 +273,58 @@ def _second_actor(cfg, root, ref, forms, ctx, d):
     return fails
 
 
-def _observe_writer(cfg, root):
+def _rewrite_race(cfg, ref_cfg, root, forms, ctx, d):
+    """A complete but EXPIRED cache file exists, the directory has changed in a way that keeps the layout of the file
+    (a file renamed to a name of the same length), and a writer rewrites the cache: every state of the file a reader can
+    observe meanwhile is replayed as that reader's request, which must show the CURRENT directory."""
+    path = os.path.join(root, ".cache.pygopherd.dir")
+    if not os.path.exists(path):
+        return []
+    victims = sorted(n for n in os.listdir(root) if not n.startswith(".") and os.path.isfile(os.path.join(root, n)))
+    if not victims:
+        return []
+    old = victims[0]
+    new = ("q" if old[0] != "q" else "r") + old[1:]
+    if os.path.lexists(os.path.join(root, new)):
+        return []
+    os.rename(os.path.join(root, old), os.path.join(root, new))
+    for side in os.listdir(root):
+        if side.startswith(old + ".") and not os.path.lexists(os.path.join(root, new + side[len(old):])):
+            os.rename(os.path.join(root, side), os.path.join(root, new + side[len(old):]))
+    st_ = os.stat(path)
+    os.utime(path, (st_.st_atime - 200000, st_.st_mtime - 200000))  # older than the lifetime (100000 s)
+    states = _observe_writer(cfg, root, keep_old=True)
+    ref = {f: _mask(_listing(ref_cfg, f).response) for f in forms}
+    fails = []
+    seen = set()
+    for i, s_ in enumerate(states):
+        if s_ in seen:
+            continue
+        seen.add(s_)
+        with open(path, "wb") as f:
+            f.write(s_)
+        form = forms[i % len(forms)]
+        r = _listing(cfg, form)
+        ctx.count("rewrite_race_states")
+        ctx.evaluations += 1
+        ctx.nontriv((d, "rewrite-race", i))
+        if _mask(r.response) != ref[form] or r.escaped is not None:
+            what = (r.handled_signatures() or ["wrong-listing"])[-1] if not r.escaped else drive.exc_signature(r.escaped)
+            fails.append(Fail("rewrite-race:%s" % what,
+                              "an expired cache is being rewritten after %r was renamed to %r; a reader that finds the file as it "
+                              "is after the writer's step %d of %d (%d bytes) gets a listing that is not the current directory: %r" % (
+                                  old, new, i, len(states), len(s_), r.response[:120]), {"logs": r.logs[-2:]}))
+            break
+    return fails
+
+
+def _observe_writer(cfg, root, keep_old=False):
     """Run one cache-writing request with the cache file's writer wrapped: after the open (truncation) and after every
     write call the on-disk bytes are recorded - exactly what a concurrently running reader could find."""
     import pygopherd.handlers.base as hbase
     path = os.path.join(root, ".cache.pygopherd.dir")
-    os.unlink(path)
+    if not keep_old:
+        os.unlink(path)
     states = []
     orig_open = hbase.VFS_Real.open
 
@@ -307,7 +357,7 @@ def _observe_writer(cfg, root):
 
     def gated(self, selector, mode, errors=None):
         fp = orig_open(self, selector, mode, errors=errors)
-        if "w" in mode and selector.endswith(".cache.pygopherd.dir"):
+        if ("w" in mode or "+" in mode or "a" in mode) and selector.endswith(".cache.pygopherd.dir"):
             snap()
             return Gate(fp)
         return fp
